@@ -217,3 +217,135 @@ func loopBodyOf(x ast.Node) *ast.BlockStmt {
 	}
 	return nil
 }
+
+// ---- R-PATHKEY-CANON (C10, C13) ----------------------------------------------------------------
+
+// rulePathKeyCanon: a key value taken from a gNMI path is a string in whatever lexical form the
+// client chose ("1.0", "+1", "01", "mod:IDENTITY"); the keys of existing list entries are compared
+// in the form ygot.KeyValueAsString gives them ("1", "IDENTITY"). A raw path key may therefore be
+// compared with constants only ("*"), and may reach a comparison with, or a map later compared
+// with, entry keys only through a function that parses it to the key's type and renders it again.
+func rulePathKeyCanon(c *Ctx, r *Report) {
+	r.Rule("R-PATHKEY-CANON", "in ytypes' list lookups (retrieveNodeList, retrieveNodeOrderedList) a key string read from the gNMI path (`….GetKey()[k]`) is compared with non-constant strings, or stored for a later comparison, only after passing through a canonicaliser — a function from which both ytypes.StringToType and ygot.KeyValueAsString are reachable", 3)
+	strToType := c.Func("ytypes", "StringToType")
+	kvas := c.Func("ygot", "KeyValueAsString")
+	canonical := map[*FuncInfo]bool{}
+	isCanon := func(g *FuncInfo) bool {
+		if g == nil || strToType == nil || kvas == nil {
+			return false
+		}
+		if v, ok := canonical[g]; ok {
+			return v
+		}
+		a, b := false, false
+		for _, h := range c.astReach(g) {
+			if h.Obj == strToType.Obj {
+				a = true
+			}
+			if h.Obj == kvas.Obj {
+				b = true
+			}
+		}
+		canonical[g] = a && b && g.Obj != strToType.Obj
+		return canonical[g]
+	}
+	for _, name := range []string{"retrieveNodeList", "retrieveNodeOrderedList"} {
+		f := c.MustFunc(r, "ytypes", name)
+		if f == nil {
+			continue
+		}
+		info := f.Info()
+		pm := c.parentMap(f.File)
+		isRawExpr := func(e ast.Expr) bool {
+			ie, ok := ast.Unparen(e).(*ast.IndexExpr)
+			if !ok {
+				return false
+			}
+			call, ok := ast.Unparen(ie.X).(*ast.CallExpr)
+			if !ok {
+				return false
+			}
+			se, ok := call.Fun.(*ast.SelectorExpr)
+			return ok && se.Sel.Name == "GetKey"
+		}
+		// raw key variables.
+		raw := map[types.Object]token.Pos{}
+		ast.Inspect(f.Decl.Body, func(x ast.Node) bool {
+			as, ok := x.(*ast.AssignStmt)
+			if !ok || len(as.Rhs) != 1 || !isRawExpr(as.Rhs[0]) {
+				return true
+			}
+			if id, ok := as.Lhs[0].(*ast.Ident); ok && id.Name != "_" {
+				if o := info.ObjectOf(id); o != nil {
+					raw[o] = as.Pos()
+				}
+			}
+			return true
+		})
+		n := 0
+		for o, dpos := range raw {
+			n++
+			bad := ""
+			ast.Inspect(f.Decl.Body, func(x ast.Node) bool {
+				id, ok := x.(*ast.Ident)
+				if !ok || info.Uses[id] != o || bad != "" {
+					return true
+				}
+				switch p := pm[id].(type) {
+				case *ast.BinaryExpr:
+					if p.Op != token.EQL && p.Op != token.NEQ {
+						return true
+					}
+					other := p.X
+					if ast.Unparen(p.X) == ast.Expr(id) {
+						other = p.Y
+					}
+					if tv, ok := info.Types[other]; !ok || tv.Value == nil {
+						bad = "compared with " + types.ExprString(other) + " at " + c.Pos(p.Pos())
+					}
+				case *ast.AssignStmt:
+					for i, rhs := range p.Rhs {
+						if ast.Unparen(rhs) == ast.Expr(id) && i < len(p.Lhs) {
+							if _, isIdx := p.Lhs[i].(*ast.IndexExpr); isIdx {
+								bad = "stored as it is in " + types.ExprString(p.Lhs[i]) + " at " + c.Pos(p.Pos())
+							}
+						}
+					}
+				case *ast.CallExpr:
+					// an argument: fine when the call's value is not itself compared or stored, or when the
+					// callee is a canonicaliser.
+					switch gp := pm[p].(type) {
+					case *ast.BinaryExpr:
+						if (gp.Op == token.EQL || gp.Op == token.NEQ) && !isCanon(c.funcOfCallee(Callee(info, p))) {
+							bad = "compared through " + types.ExprString(p.Fun) + ", which does not parse and re-render the key, at " + c.Pos(gp.Pos())
+						}
+					case *ast.AssignStmt:
+						for i, rhs := range gp.Rhs {
+							if ast.Unparen(rhs) == ast.Expr(p) && i < len(gp.Lhs) {
+								if _, isIdx := gp.Lhs[i].(*ast.IndexExpr); isIdx && !isCanon(c.funcOfCallee(Callee(info, p))) {
+									bad = "stored through " + types.ExprString(p.Fun) + ", which does not parse and re-render the key, at " + c.Pos(gp.Pos())
+								}
+							}
+						}
+					}
+				}
+				return true
+			})
+			r.Check(bad == "", fmt.Sprintf("%s:path-key(%s)#%d", f.Name, o.Name(), rawOrdinal(raw, o)), c.Pos(dpos), "the raw path key is compared with constants only and reaches entry keys through a canonicaliser",
+				f.Name+": the key string "+o.Name()+" read from the gNMI path is "+bad+": a key spelled other than KeyValueAsString spells it (`[k=1.0]`, the canonical decimal64 form; `[k=+1]`, `[id=mod:NAME]`) does not find the existing entry — GetNode returns nothing for a path SetNode just accepted, and the next SetNode replaces the entry by a keys-only one")
+		}
+		// the wildcard test on the raw expression itself is a comparison with a constant; nothing to do.
+		_ = n
+	}
+}
+
+// rawOrdinal: position of o among the raw key variables of the function, in source order.
+func rawOrdinal(raw map[types.Object]token.Pos, o types.Object) int {
+	k := 1
+	for p, pos := range raw {
+		if p != o && pos < raw[o] {
+			k++
+		}
+	}
+	return k
+}
